@@ -8,7 +8,7 @@ func init() {
 	vRegister(&vCheck{
 		id: "C16", level: "model_checking", flavour: "sched", race: false,
 		shards: func(string) int { return 16 },
-		rule: "stateless model checking of the real server (source-instrumented, controlled scheduler): a request (WRITE or LOOKUP through HandleCall, worker pool of 1) runs concurrently with UpdatePolicyOptions (read-only on, AllowedIPs changed; thorough: two racing updates) or with UpdateExportOptions (read-only on plus cache-size and worker-count changes), a second request is sent by the updater after its update returned, and a third scenario lets the per-operation timeout fire early; every backend call is a scheduling point and is logged with the requesting thread and the live policy pointer. Every choice sequence within D-bound 3 (thorough D-bound 4, P-bound 3) is executed. Oracles per execution: one policy snapshot per request; after the last update returned no request admitted earlier issues a backend call, and no modifying backend call at all once read-only is in force; JUKEBOX only for a request overlapping an update; update and requests always return; the request sent after the update is judged by the new policy (ROFS / denied); replies decode strictly. S7: two LOOKUPs on one connection (dispatched through the worker pool) while UpdateTuningOptions changes the worker count and cache sizes: both are answered OK, nothing blocks. A sequential clause (single schedule) enables rate limiting (burst 1, rate 0) at runtime and checks that a connection opened earlier is limited.",
+		rule: "stateless model checking of the real server (source-instrumented, controlled scheduler): a request (WRITE or LOOKUP through HandleCall, worker pool of 1) runs concurrently with UpdatePolicyOptions (read-only on, AllowedIPs changed; thorough: two racing updates) or with UpdateExportOptions (read-only on plus cache-size and worker-count changes), a second request is sent by the updater after its update returned, and a third scenario lets the per-operation timeout fire early; every backend call is a scheduling point and is logged with the requesting thread and the live policy pointer. Every choice sequence within D-bound 3 (thorough D-bound 4, P-bound 3) is executed. Oracles per execution: one policy snapshot per request; after the last update returned no request admitted earlier issues a backend call, and no modifying backend call at all once read-only is in force; update and requests always return; the request sent after the update is judged by the new policy (ROFS / denied); replies decode strictly. S7: two LOOKUPs on one connection (dispatched through the worker pool) while UpdateTuningOptions changes the worker count and cache sizes: both are answered OK, nothing blocks. A sequential clause (single schedule) enables rate limiting (burst 1, rate 0) at runtime and checks that a connection opened earlier is limited.",
 		assumptions: []string{"scheduling points are the synchronisation operations of the instrumented package plus every backend call; plain memory accesses between them are atomic steps",
 			"metrics and logging internals are not scheduling points"},
 		run:    func(c *vCtx) { vSchedRunPlans(c, "C16", c16Scenarios(c.thorough()), []vPlan{{"D", 3}}, []vPlan{{"D", 4}, {"P", 3}}) },
